@@ -239,7 +239,7 @@ def r6_coupling(idx, r):
         raise AnalysisError("tight coupling loop not found")
     r.require(norm(loop.iter) == "range(self.cs[CONF_TIGHT_COUPLING_MAX_ITERS])", "iteration-cap", f, node=loop.iter, msg=f"iterations must be capped by the setting: `{norm(loop.iter)}`")
     conds = [(norm(t), p) for t, p in path_conditions(f.node, loop)]
-    r.require(("cycle in skipCycles", False) in conds and ("not self.couplingIsActive()", False) in conds and len(conds) == 2, "loop-guards", f, node=loop, msg=f"coupling iterations run when coupling is active and the cycle is not exempt: {conds}")
+    r.require(("cycle in skipCycles", False) in conds and ("self.couplingIsActive()", True) in conds and len(conds) == 2, "loop-guards", f, node=loop, msg=f"coupling iterations run when coupling is active and the cycle is not exempt: {conds}")
     call = next(c for c in iter_calls(loop) if _is_call(c, "self.interactAllCoupled"))
     res = [s for s in iter_stores(loop) if s.value is call]
     nm = res[0].attr if res else None
@@ -255,7 +255,7 @@ def r6_coupling(idx, r):
         r.violate("db-write-after-coupling", f, "the node's database write after coupling is gone")
     else:
         conds = [(norm(t), p) for t, p in path_conditions(f.node, w)]
-        r.require(sorted(conds) == sorted([("not self.couplingIsActive()", False), ("writeDB", True)]), "db-write-after-coupling", f, node=w,
+        r.require(sorted(conds) == sorted([("self.couplingIsActive()", True), ("writeDB", True)]), "db-write-after-coupling", f, node=w,
                   msg=f"with coupling active the node must be written whether or not the cycle is exempt from coupling; write happens under {conds}")
         r.require(w.lineno > loop.end_lineno, "db-write-order", f, node=w, msg="the database write must follow the coupling iterations")
     ic = idx.method(OP, "interactAllCoupled")
@@ -363,7 +363,7 @@ def r8_toggles(idx, r):
     conds = [norm(t) for t, p in path_conditions(ai.node, bf) if p] if bf is not None else None
     r.require(bf is not None and not conds, "addInterface:bolForce-unconditional", ai, node=bf, msg="addInterface must always set the BOL-force flag from its argument")
     en = next((c for c in iter_calls(ai.node) if norm(c) == "interface.enabled(False)"), None)
-    r.require(en is not None and [(norm(t), p) for t, p in path_conditions(ai.node, en) if norm(t) == "not enabled"] == [("not enabled", True)], "addInterface:disable", ai, node=en,
+    r.require(en is not None and [(norm(t), p) for t, p in path_conditions(ai.node, en) if norm(t) == "enabled"] == [("enabled", False)], "addInterface:disable", ai, node=en,
               msg="addInterface must disable the interface when enabled=False")
 
 
